@@ -4206,6 +4206,7 @@ class Series(FrameBase):
 
     @derived_from(pd.Series)
     def between(self, left, right, inclusive="both"):
+        expr._check_co_aligned("between", self.expr, left, right)
         return new_collection(
             expr.Between(self, left=left, right=right, inclusive=inclusive)
         )
@@ -4390,6 +4391,7 @@ class Series(FrameBase):
             if not isinstance(caselist, list):
                 raise TypeError("The caselist argument should be a list")
             caselist = list(flatten([[c, v] for c, v in caselist], container=list))
+            expr._check_co_aligned("case_when", self.expr, *caselist)
             return new_collection(expr.CaseWhen(self, *caselist))
 
 
